@@ -6,6 +6,22 @@ HOOK_COMMITS = ["ca6d3b8", "a1d2aab"]
 
 # id -> (technique, level text, level note, design ref)
 CLAIMED = {
+ "C12": ("bounded exhaustive enumeration of all ordered pairs/triples of calendar-boundary dates x aggregations x fill/diff x filters; report rows read back and compared with independent calendar bucketing (subset-sum identification of records)",
+         "Each record carries a distinct power-of-two total, so a row's total identifies exactly which records landed in it. For every file x aggregation x flag combination the rows must be exactly the expected periods in chronological order, each with the total/should/diff of exactly the records whose date lies in that period by the independent calendar, filled rows empty, the grand total equal to the row sum and to `klog total`; `klog today` must split the same total into current and other records (with and without --now).",
+         "Trusted: specmodel calendar; the report table layout (fixed label columns, '=' ruler) used for reading rows back. `--fill` only for spans <= 800 days.",
+         "DESIGN.md §4 C12"),
+ "C13": ("bounded exhaustive enumeration of filter-clause combinations (all date clauses around record dates, periods, relative shortcuts under many clocks, tag and entry-type queries, pairs and triples, sort) against an independent predicate",
+         "Every clause combination over 6 base files runs through the complete CLI (`klog json`, real flag decoding) and the selected records/entries are compared field by field with the independent predicate applied to the reference denotation: exactly the matching records and entries, unchanged, in original order; --sort as a date-monotone permutation; combined clauses as intersections. The sort routine itself is run on all 2^13+2^14 two-date assignments of 13/14 records.",
+         "Trusted: specmodel parser, tag scanner and calendar. One lower/upper date bound at a time.",
+         "DESIGN.md §4 C13"),
+ "C18": ("exhaustive product documents x commands x styling configurations through the complete CLI; own SGR stripper; row-width check on every table",
+         "For every (document, command line, configuration): the three ways of disabling styling give escape-free, identical output; every styled scheme's output equals it after removing SGR sequences (no other escape may remain); every row of the report/tags/today tables has the same number of visible characters.",
+         "Trusted: the SGR stripper. Inputs contain no ESC bytes (not in the quantifier).",
+         "DESIGN.md §4 C18"),
+ "C19": ("explicit-state model checking of the full bookmark-database state graph: every state built through the real CLI, every operation executed in every state, compared with a plain map; state canonicity checked on every transition",
+         "The state (bookmarks.json) space is enumerated completely (64 states quick, 3125 thorough); in every state every set/unset/clear operation with every name spelling and target is executed through klog.Run and compared with the map model (result map read back with a strict JSON parser, failure = unchanged bytes + non-zero exit), list/info/@name resolution/default-bookmark resolution are compared on every state, and the bytes reached by (state, op) must equal those of the successor state built on its own shortest path.",
+         "Trusted: the map model and the name normalisation rule; the database file is the whole state.",
+         "DESIGN.md §4 C19"),
  "C02": ("bounded exhaustive enumeration of valid documents over an arithmetic value menu (all sequences of <=3 entries; two/three records; --now clock/date products) against an independent integer-minute evaluator",
          "Every document of the families is evaluated by klog (service.Total/ShouldTotalSum/Diff, per record and per entry; a fixed stride also through `klog total --diff --decimal`, `klog json` and `klog print --with-totals` via the complete CLI) and compared with the reference evaluator: shifted times, the 24:00 spellings, overlapping ranges, duplicate dates, open ranges with and without --now (refusal conditions included).",
          "Trusted: specmodel parser/evaluator. Bounds: <=3 entries per record, <=3 records.",
